@@ -1,7 +1,7 @@
 """C01: a compiled field returns what composing the user functions returns."""
 from props import enginecorr, multifield
 
-MODEL_DEPS = ['CheckLib']
+MODEL_DEPS = ['CheckLib', 'NameLevel']
 KERNELS = ('StaticHash', 'StaticGraph', 'StaticEdge', 'FunctionEdge', 'ComputableHashBase', 'IdentityEdge', 'ConstantEdge',
            'CacheEdge', 'ProductEdge', 'HashBarrier', 'SwitchEdge', 'CheckIdsEdge', 'EvictionCache', 'Graph', 'count_entries',
            'validate_graph', 'execute')
@@ -16,4 +16,11 @@ ASSUMPTIONS = ['CPython generator semantics (send / StopIteration) are as modell
 def run(ctx):
     r = enginecorr.run(ctx)
     res = enginecorr.summarise(r, ('result',), 'C01')
-    return multifield.add(ctx, res, 'C01')
+    res = multifield.add(ctx, res, 'C01')
+    # asking for a field that was quietly left out (or for any unknown name) raises FieldError / AttributeError, never an error from inside the compiler:
+    # the stacks of C18 (optional chains with missing roots, fan-out below a missing root), here only for the class of the errors
+    from props import stackcorr
+    rs = stackcorr.run(dict(ctx, pid=ctx['pid'] + 'st'), optional=True, brackets=False, pid='C01')
+    res['violations'] = list(res['violations']) + [x for x in rs.get('violations', []) if x['signature'] in ('oracle:stack-unexpected-error', 'harness-error')][:2]
+    res['oracle_checks'] = res.get('oracle_checks', 0) + rs.get('evaluations', 0)
+    return res
